@@ -54,6 +54,14 @@ def apply_edits(root, edits):
 
 
 def run_one(m, keep=False):
+    """one retry for infrastructure errors (rsync / cargo under heavy load); rule outcomes are never retried"""
+    r = _run_one(m, keep)
+    if r["status"] == "error" and "pattern occurs" not in r.get("detail", ""):
+        r = _run_one(m, keep)
+    return r
+
+
+def _run_one(m, keep=False):
     t0 = time.time()
     tmp = tempfile.mkdtemp(prefix="feos-mut-")
     root = os.path.join(tmp, "repo")
